@@ -60,17 +60,87 @@ def apply_level_rewrites(body, binds, rules):
     return body
 
 
+def enclosing_block_end(text, pos):
+    """index of the `}` closing the innermost block that contains pos (or len(text) at top level)"""
+    depth = 0
+    for i in range(pos, len(text)):
+        c = text[i]
+        if c == "{":
+            depth += 1
+        elif c == "}":
+            if depth == 0:
+                return i
+            depth -= 1
+    return len(text)
+
+
+def resolve_level_aliases(body, rules, fname):
+    """T2-T4, scope aware: `Level& X = levels_[E];` binds X to level E until the end of the enclosing block
+    (an inner declaration may shadow an outer one).  Uses of X are rewritten, the declaration is removed."""
+    pat = re.compile(r"Level\s*&\s*(\w+)\s*=\s*levels_\[([^\]]+)\]\s*;")
+    binds = []
+    while True:
+        ms = list(pat.finditer(body))
+        if not ms:
+            break
+        m = ms[-1]
+        name, expr = m.group(1), m.group(2).strip()
+        end = enclosing_block_end(body, m.end())
+        seg = body[m.end():end]
+        seg = re.sub(r"\b%s\.grid\(\)\.numberOfNodes\(\)" % name, "grid_numberOfNodes(%s)" % expr, seg)
+        seg = re.sub(r"computeExactError\(\s*%s\s*," % name, "computeExactError(%s," % expr, seg)
+        seg = re.sub(r"(?m)^(\s*)%s\.(\w+)\(\)\s*=\s*%s\.(\w+)\(\)\s*;" % (name, name),
+                     lambda q: "%svec_copy(HV(%s, %s), HV(%s, %s));" % (q.group(1), expr, VEC_ACC[q.group(2)], expr, VEC_ACC[q.group(3)]), seg)
+        seg = re.sub(r"\b%s\.(%s)\(" % (name, LEVEL_OPS), lambda q: "Level_%s(%s, " % (q.group(1), expr), seg)
+        seg = re.sub(r"\b%s\.(rhs|solution|residual|error_correction)\(\)" % name,
+                     lambda q: "HV(%s, %s)" % (expr, VEC_ACC[q.group(1)]), seg)
+        if re.search(r"\b%s\s*\." % name, seg):
+            raise ExtractError("%s: unrewritten use of level alias %s: %s" % (fname, name, re.findall(r".*\b%s\s*\..*" % name, seg)[:2]))
+        body = body[:m.start()] + seg + body[end:]
+        binds.append((name, expr))
+    rules.log.append(("T2.level_alias(%s)" % fname, len(binds)))
+    return body, binds
+
+
+def drop_dead_block(body, rules, var):
+    """T10: `bool VAR = false; if (VAR) { ... }` with no other assignment to VAR: the block is dead code"""
+    m = re.search(r"\bbool\s+%s\s*=\s*false\s*;" % var, body)
+    if not m:
+        return body
+    if len(re.findall(r"\b%s\s*=(?!=)" % var, body)) != 1:
+        raise ExtractError("T10: %s is assigned elsewhere" % var)
+    m2 = re.search(r"if\s*\(\s*%s\s*\)\s*\{" % var, body)
+    if not m2:
+        raise ExtractError("T10: no `if (%s)` block" % var)
+    bo = m2.end() - 1
+    bc = match_close(body, bo, "{", "}")
+    body = body[:m.start()] + body[m.end():m2.start()] + body[bc + 1:]
+    rules.log.append(("T10.dead_block(%s)" % var, 1))
+    return body
+
+
 def splice_loop_contracts(body, loop_contracts, fname):
-    """insert the keyed loop contract after the header of the n-th `for`/`while` loop of the body."""
+    """insert the keyed loop contract after the header of the n-th `for`/`while` loop of the body; an entry may be
+    a pair (contract, ghost) whose ghost statements are placed at the start of the loop body."""
     out, pos, k = [], 0, 0
     for m in re.finditer(r"\b(for|while)\s*\(", body):
+        if m.start() < pos:
+            continue
         po = m.end() - 1
         pc = match_close(body, po, "(", ")")
         if k >= len(loop_contracts):
             raise ExtractError("%s: loop #%d has no contract (source has more loops than the sidecar)" % (fname, k))
+        lc = loop_contracts[k]
+        contract, ghost = (lc, "") if isinstance(lc, str) else lc
         out.append(body[pos:pc + 1])
-        out.append("\n" + loop_contracts[k] + "\n")
+        out.append("\n" + contract + "\n")
         pos = pc + 1
+        if ghost:
+            mb = re.match(r"\s*\{", body[pos:])
+            if not mb:
+                raise ExtractError("%s: loop #%d body is not a block" % (fname, k))
+            out.append(body[pos:pos + mb.end()] + "\n" + ghost + "\n")
+            pos += mb.end()
         k += 1
     out.append(body[pos:])
     if k != len(loop_contracts):
@@ -248,3 +318,127 @@ def enforce_harness(name, params, contract, state_setup, extra_obl=()):
     t.append('    __CPROVER_assert(0, "COVER:%s.returned");' % name)
     t.append("}")
     return "\n".join(t) + "\n"
+
+
+# --------------------------------------------------------------------------------------
+# GMGPolar::solve / initializeSolution / converged
+# --------------------------------------------------------------------------------------
+def drop_verbose_blocks(body, rules):
+    """`if (verbose_ > 0) { only std::cout statements }` -> removed"""
+    n = 0
+    while True:
+        m = re.search(r"if\s*\(\s*verbose_\s*>\s*0\s*\)\s*\{", body)
+        if not m:
+            break
+        bo = m.end() - 1
+        bc = match_close(body, bo, "{", "}")
+        inner = body[bo + 1:bc]
+        stmts = [s.strip() for s in inner.split(";") if s.strip()]
+        if not all(s.startswith("std::cout") for s in stmts):
+            raise ExtractError("verbose block contains more than output statements: " + inner[:80])
+        body = body[:m.start()] + body[bc + 1:]
+        n += 1
+    rules.log.append(("T1.verbose_block", n))
+    return body
+
+
+def drop_t_assignments(body, rules):
+    body, n = re.subn(r"^[ \t]*t_\w+\s*(=|\+=|-=|/=)[^;]*;[ \t]*$", "", body, flags=re.M)
+    rules.log.append(("T1.timing_assign", n))
+    return body
+
+
+def join_statements(body):
+    """layout only: put every statement / condition header on one line"""
+    lines = [l.rstrip() for l in body.split("\n")]
+    out, cur = [], ""
+    for l in lines:
+        if not l.strip():
+            if cur:
+                cur += " "
+                continue
+            out.append("")
+            continue
+        cur = (cur + " " + l.strip()) if cur else l
+        if cur.rstrip()[-1] in ";{}:":
+            out.append(cur)
+            cur = ""
+    if cur:
+        out.append(cur)
+    return "\n".join(out)
+
+
+def mark_uninit_locals(body, rules, names):
+    """T9: definedness ghosts for locals declared without initialiser: every assignment sets the ghost bit, every
+    other statement line that mentions the variable first asserts it."""
+    lines = body.split("\n")
+    out = []
+    n_decl = n_read = 0
+    declared = set()
+    for ln in lines:
+        m = re.match(r"^(\s*)double\s+([\w\s,]+);\s*$", ln)
+        if m and all(v.strip() in names for v in m.group(2).split(",")):
+            vs = [v.strip() for v in m.group(2).split(",")]
+            out.append(ln)
+            out.append(m.group(1) + " ".join("_Bool def_%s = 0;" % v for v in vs))
+            declared.update(vs)
+            n_decl += len(vs)
+            continue
+        used = [v for v in declared if re.search(r"\b%s\b" % v, ln)]
+        pre, post = [], []
+        for v in used:
+            am = re.match(r"^\s*%s\s*=(?!=)(.*)$" % v, ln)
+            if am:
+                post.append("def_%s = 1;" % v)
+                rhs_used = [w for w in declared if re.search(r"\b%s\b" % w, am.group(1))]
+                for w in rhs_used:
+                    pre.append('__CPROVER_assert(def_%s, "OBL:local %s is initialised when read");' % (w, w))
+                    n_read += 1
+            else:
+                pre.append('__CPROVER_assert(def_%s, "OBL:local %s is initialised when read");' % (v, v))
+                n_read += 1
+        ind = re.match(r"^(\s*)", ln).group(1)
+        stripped = ln.strip()
+        if pre and (stripped.startswith("if") or stripped.startswith("else") or stripped.endswith(";") or True):
+            out.append(ind + " ".join(dict.fromkeys(pre)))
+        out.append(ln)
+        if post:
+            if not ln.rstrip().endswith(";"):
+                raise ExtractError("T9: multi-line assignment to tracked local: " + ln)
+            out.append(ind + " ".join(post))
+    rules.log.append(("T9.uninit_local_decl", n_decl))
+    rules.log.append(("T9.uninit_local_read_checks", n_read))
+    if n_decl != len(names):
+        raise ExtractError("T9: expected uninitialised locals %s, found %s" % (names, sorted(declared)))
+    return "\n".join(out)
+
+
+def extract_driver(name, rules, hashes, prologue, loop_contracts, uninit=()):
+    f = Src.get("src/GMGPolar/solver.cpp").function("GMGPolar::" + name)
+    hashes["GMGPolar::" + name] = sha(f["body"])
+    body = f["body"]
+    body = drop_verbose_blocks(body, rules)
+    body = drop_timing(body, rules)
+    body = drop_t_assignments(body, rules)
+    body = drop_dead_block(body, rules, "use_boundary_condition")
+    body, binds = resolve_level_aliases(body, rules, name)
+    body = rules.sub("T5.optional_has", r"\b(\w+_)\.has_value\(\)", r"\1_has", body)
+    body = rules.sub("T5.optional_val", r"\b(\w+_)\.value\(\)", r"\1_val", body)
+    body = rules.sub("T6.pair_decl", r"std::pair<double,\s*double>\s+(\w+)\s*=", r"pair_t \1 =", body)
+    body = rules.sub("T7.rn_push", r"\bresidual_norms_\.push_back\(", "RN_PUSH(", body)
+    body = rules.sub("T7.ee_push", r"\bexact_errors_\.push_back\(", "EE_PUSH(", body)
+    body = rules.sub("T7.rn_read", r"\bresidual_norms_\[([^\]]+)\]", r"RN_READ(\1)", body)
+    body = rules.sub("T8.nullptr", r"\bnullptr\b", "0", body)
+    body = rules.sub("T1.writeToVTK", r"^[ \t]*writeToVTK\([^;]*\);[ \t]*$", "", body, flags=re.M)
+    body = rules.sub("R7.std_math", r"\bstd::(pow|sqrt|floor)\b", r"v_\1", body)
+    body = rules.sub("R7.math", r"(?<![\w.])(sqrt|pow)\s*\(", r"v_\1(", body)
+    body = common_T(body, rules)
+    body = join_statements(body)
+    if uninit:
+        body = mark_uninit_locals(body, rules, list(uninit))
+    body = splice_loop_contracts(body, loop_contracts, name)
+    if re.search(r"\b(auto|std::)\b|::", body):
+        raise ExtractError("%s: unhandled C++ construct left: %s" % (name, re.findall(r".*(?:auto|std::|::).*", body)[:3]))
+    ret = "_Bool" if f["ret"].split()[-1] == "bool" else "void"
+    ps = ", ".join("const double %s" % p[1] for p in f["params"]) or "void"
+    return "%s %s__impl(%s)\n{\n%s\n%s}\n" % (ret, name, ps, prologue, body)
